@@ -278,7 +278,16 @@ def mk_gbox(rng: random.Random, ny: int, nx: int, GeoBox, dyadic: bool = True):
     dyadic=False: realistic doubles (0.00025, 1/3, 30.000000001, origins at k ± 1e-9 …) — the float stream."""
     from affine import Affine  # pylint: disable=import-outside-toplevel
 
-    crs = rng.choice(["epsg:3857", "epsg:4326", "epsg:32633", "epsg:3577"])
+    # EPSG-coded CRSs and definitions WITHOUT a code (some with a fuzzy pyproj match: datum-less UTM, custom LAEA / Albers,
+    # an ESRI code, MODIS sinusoidal); the file's CRS is compared in full with the requested definition
+    crs = rng.choice(["epsg:3857", "epsg:4326", "epsg:32633", "epsg:3577", "epsg:3857", "epsg:32633",
+                      "+proj=utm +zone=55 +south +ellps=GRS80 +units=m +no_defs",
+                      "+proj=utm +zone=33 +ellps=WGS72 +units=m +no_defs",
+                      "+proj=laea +lat_0=52 +lon_0=10 +x_0=4321000 +y_0=3210000 +ellps=GRS80 +units=m +no_defs",
+                      "+proj=sinu +lon_0=0 +x_0=0 +y_0=0 +R=6371007.181 +units=m +no_defs",
+                      "+proj=aea +lat_1=-18 +lat_2=-36 +lat_0=0 +lon_0=132 +x_0=0 +y_0=0 +ellps=GRS80 +units=m +no_defs",
+                      "ESRI:54008"])
+    mk_gbox.last_spec = crs
     if dyadic:
         res = rng.choice([1, 10, 30, 0.5, 0.25, 2]) if crs != "epsg:4326" else rng.choice([0.25, 0.125, 1 / 1024])
         x0 = rng.randint(-1000, 1000) * res
@@ -301,7 +310,28 @@ def mk_gbox(rng: random.Random, ny: int, nx: int, GeoBox, dyadic: bool = True):
         A = Affine(res, 0, x0, 0, res, y0)  # south-up
     else:  # rotated / sheared, dyadic coefficients
         A = Affine(res, res / 2, x0, res / 4, -res, y0)
-    return GeoBox((ny, nx), A, crs)
+    from odc.geo.crs import CRS as _CRS  # pylint: disable=import-outside-toplevel
+
+    crs_obj = _CRS(crs)
+    if rng.random() < 0.5:
+        _ = crs_obj.epsg  # `.epsg` (pyproj's fuzzy to_epsg) read beforehand must not change what gets written
+    return GeoBox((ny, nx), A, crs_obj)
+
+
+_CRS_CMP = {}
+
+
+def crs_same(file_crs, spec: str):
+    """full pyproj comparison (`CRS.__eq__`) of the CRS an independent reader finds in the file with the requested one"""
+    import pyproj  # pylint: disable=import-outside-toplevel
+
+    if file_crs is None:
+        return False, "file has no CRS"
+    wkt = file_crs.to_wkt()
+    if (wkt, spec) not in _CRS_CMP:
+        got, want = pyproj.CRS.from_wkt(wkt), pyproj.CRS(spec)
+        _CRS_CMP[wkt, spec] = (got == want, f"file: {got.name} / datum {got.datum.name}; requested: {want.name} / datum {want.datum.name}")
+    return _CRS_CMP[wkt, spec]
 
 
 DTYPES = ["uint8", "int16", "uint16", "float32", "float64"]
@@ -396,11 +426,21 @@ def gen_cfg(rng: random.Random, big: bool):
             return [c for c in out if c > 0]
 
         irregular = [split(ny), split(nx)]
-    return dict(
+    recompute = rng.random() < 0.1
+    spill = {}
+    if recompute and rng.random() < 0.7:
+        # recompute AFTER spills: incompressible 32 KiB tiles, spill threshold 1 byte, spare write credits — every append
+        # task and every merge writes parts before the graph is computed a second and a third time
+        ny, nx, dt, bs, comp, ckw, pred, nodata = rng.randint(130, 300), rng.randint(130, 300), "float64", [64], "zstd", {}, None, None
+        if ax == "SYX" and ns == ny == nx:
+            nx += 1
+        irregular = None
+        spill = dict(spill_sz=1, wpc=rng.choice([2, 3]))
+    out_cfg = dict(
         shape=[ny, nx], axis=ax, ns=ns, dtype=dt, blocksize=bs, comp=comp, ckw=ckw, predictor=pred, nodata=nodata,
         chunks=[cy, cx], irregular=irregular, byteorder=rng.choice(["=", "=", "=", "=", "=", ">"]),
         dst_state=rng.choice(["fresh", "fresh", "fresh", "existing-small", "existing-large", "parts-dir"]),
-        recompute=rng.random() < 0.1,
+        recompute=recompute, bs_container=rng.choice(["list", "list", "tuple"]),
         sch=rng.choice([1, ns]), spill_sz=rng.choice([None, None, 1, 5000, 20000, 100000]),
         wpc=rng.choice([None, None, 1, 2, 3]), bigtiff=rng.choice([None, None, True, False]),
         stats=rng.choice([True, False, True]),
@@ -409,6 +449,8 @@ def gen_cfg(rng: random.Random, big: bool):
         dyadic=rng.random() < 0.75,
         dask_cfg=rng.randrange(len(DASK_CFGS)),
     )
+    out_cfg.update(spill)
+    return out_cfg
 
 
 def build_input(cfg, GeoBox, wrap_xr):
@@ -417,6 +459,7 @@ def build_input(cfg, GeoBox, wrap_xr):
     ny, nx = cfg["shape"]
     ax, ns, dt = cfg["axis"], cfg["ns"], np.dtype(cfg["dtype"])
     gbox = mk_gbox(random.Random(cfg["pixseed"]), ny, nx, GeoBox, dyadic=cfg.get("dyadic", True))
+    cfg["_crs_spec"] = mk_gbox.last_spec
     prng = np.random.default_rng(cfg["pixseed"])
     shp = (ny, nx) if ax == "YX" else ((ny, nx, ns) if ax == "YXS" else (ns, ny, nx))
     if dt.kind == "f":
@@ -444,6 +487,8 @@ def build_input(cfg, GeoBox, wrap_xr):
     if cfg["blocksize"] is not None:
         b = cfg["blocksize"]
         skw["blocksize"] = b if isinstance(b, int) else [x if isinstance(x, int) else tuple(x) for x in b]
+        if cfg.get("bs_container") == "tuple" and not isinstance(b, int):
+            skw["blocksize"] = tuple(skw["blocksize"])  # the level list in another container kind
     for k_cfg, k_kw in (("predictor", "predictor"), ("spill_sz", "spill_sz"), ("wpc", "writes_per_chunk"),
                         ("bigtiff", "bigtiff"), ("level", "level")):
         if cfg.get(k_cfg) is not None:
@@ -619,9 +664,21 @@ def e2e(cfg, workdir: str, tag: str, precomputed: bool = False):
                 rr = compute_with(fut, sched_of(cfg))
                 if str(rr) == fn and os.path.exists(fn) and cfg.get("recompute"):
                     first = open(fn, "rb").read()
-                    compute_with(fut, sched_of(cfg))  # the same Delayed, computed again
-                    if open(fn, "rb").read() != first:
-                        fails.append(("recompute-changes-file", "computing the returned Delayed a second time changed the file"))
+                    for nth in ("second", "third"):  # the same Delayed, computed again and again
+                        try:
+                            compute_with(fut, sched_of(cfg))
+                        except Exception as e2:  # pylint: disable=broad-except
+                            fails.append(("recompute-fails", f"the {nth} compute() of the same Delayed raised {type(e2).__name__}: {str(e2)[:120]}"))
+                            break
+                        if open(fn, "rb").read() != first:
+                            fails.append(("recompute-changes-file", f"the {nth} compute() of the same Delayed changed the file"))
+                            break
+                    if fails:
+                        for leftover in (fn,):
+                            if os.path.exists(leftover):
+                                os.unlink(leftover)
+                        shutil.rmtree(os.path.join(workdir, f".{tag}.tif.parts"), ignore_errors=True)
+                        return facts, fails
             if str(rr) != fn or not os.path.exists(fn):
                 fails.append(("save-cog-no-file", f"compute() returned {rr!r}"))
                 return facts, fails
@@ -767,8 +824,9 @@ def e2e(cfg, workdir: str, tag: str, precomputed: bool = False):
                 t_ok = all(abs(a - b) <= 16 * 2.0**-52 * mag for a, b in zip(ft, gt))
             if not t_ok:
                 fails.append(("transform-differs", f"{ft} vs {gt}"))
-            if f.crs is None or f.crs.to_epsg() != gbox.crs.epsg:
-                fails.append(("crs-differs", f"{f.crs} vs {gbox.crs}"))
+            crs_ok, crs_msg = crs_same(f.crs, cfg["_crs_spec"])
+            if not crs_ok:
+                fails.append(("crs-differs", crs_msg))
             if not same_nodata(f.nodata, cfg["nodata"]):
                 fails.append(("nodata-differs", f"{f.nodata} vs {cfg['nodata']}"))
             ovs = f.overviews(1)
@@ -1318,6 +1376,60 @@ def run(R: Run):
         for k_ in range(4):
             stream_case(meta, hdr0, with_patch=k_ < 2)
 
+    # ---- targeted shape family (from `padded_shape`): exactly ONE axis is already a multiple of 2**levels, the other one
+    # gains 1..3 whole tiles by the padding.  Enumerated up to 1000 px; most are checked on the constructed graph only
+    # (every tile task must reference a source block that exists; `_pad_to_cog_shape` must reach the padded shape exactly),
+    # a handful are written end to end below.
+    import dask.array as da  # pylint: disable=import-outside-toplevel
+
+    family = []
+    for b in (16, 32, 48, 64):
+        for N in range(b + 1, 1001):
+            for M in (b, 2 * b, 4 * b, 8 * b, 16 * b, 256, 512, 768, 1024):
+                n = max(least_k(b, N), least_k(b, M))
+                gained = -(-ceil_to(N, 2**n) // b) - -(-N // b)
+                if M % 2**n == 0 and N % 2**n != 0 and 1 <= gained <= 3:
+                    family.append((N, M, b, gained))
+    rng.shuffle(family)
+    R.extra["one_axis_aligned_family_size"] = len(family)
+    # graph construction cost grows with the tile count: quick looks at members of up to ~500 tiles, thorough ~4000
+    family = [f_ for f_ in family if f_[0] * f_[1] <= R.pick(500, 4000) * f_[2] ** 2]
+    fam_e2e = []
+    for k_, (N, M, b, gained) in enumerate(family[: R.pick(90, 1200)]):
+        ny, nx = (N, M) if k_ % 2 else (M, N)
+        ns = rng.choice([1, 1, 2])
+        shape = [ny, nx] if ns == 1 else rng.choice([[ns, ny, nx], [ny, nx, ns]])
+        if k_ < R.pick(4, 40):
+            fam_e2e.append(dict(shape=[ny, nx], axis="YX", ns=1, dtype="uint8", blocksize=[b], comp="zstd", predictor=None, nodata=rng.choice([None, 7]),
+                                chunks=[max(b, 64), max(b, 64)], sch=1, spill_sz=None, wpc=None, bigtiff=None, stats=False, sched="sync",
+                                pixseed=k_, level=None))
+        case = {"fn": "graph of save_cog_with_dask", "shape": shape, "blocksize": [b], "tiles_gained": gained}
+        try:
+            is_syx = len(shape) == 3 and shape[0] == ns and (shape[1], shape[2]) == (ny, nx)
+            kw_ = {"time": [f"20{i:02d}-01-01" for i in range(ns)]} if is_syx else {}
+            arr = da.zeros(tuple(shape), dtype="uint8", chunks=tuple(rng.choice([b, 2 * b, 100]) if d_ > 4 else d_ for d_ in shape))
+            xx = wrap_xr(arr, mk_gbox(rng, ny, nx, GeoBox), **kw_)
+            dry = T.save_cog_with_dask(xx, "", blocksize=[b], compression="zstd", stats=False)
+            meta = dry["meta"]
+            R.corr(f"c05 spec {ny} {nx} {b} {b} N", lambda: f"{meta.shape.y} {meta.shape.x} {meta.tile.y} {meta.tile.x} {len(meta.overviews)}",
+                   sig="spec|one-axis-aligned")
+            missing = 0
+            for bag in dry["tiles"][: meta.num_planes]:
+                g = bag.__dask_graph__()
+                for layer in g.layers.values():
+                    for task in dict(layer).values():
+                        if isinstance(task, tuple) and len(task) == 4 and task[0] is T._compress_cog_tile and task[2] not in g:  # pylint: disable=protected-access
+                            missing += 1
+            bad = [] if not missing else [f"{missing} tile tasks reference a source block that does not exist"]
+            if hasattr(T, "_pad_to_cog_shape"):
+                padded = T._pad_to_cog_shape(xx.data, meta)  # pylint: disable=protected-access
+                yd = 1 if meta.axis == "SYX" else 0
+                if tuple(padded.shape[yd:yd + 2]) != (meta.shape.y, meta.shape.x):
+                    bad.append(f"source padded to {tuple(padded.shape[yd:yd + 2])}, COG shape is {(meta.shape.y, meta.shape.x)}")
+            R.oracle(not bad, "tile-without-source-block", case, "; ".join(bad), sig="graph|one-axis-aligned")
+        except Exception as e:  # pylint: disable=broad-except
+            R.oracle(False, f"graph-construction-raises:{type(e).__name__}", case, f"{type(e).__name__}: {str(e)[:200]}", sig="graph|one-axis-aligned")
+
     # ---- end to end: real save_cog_with_dask(...).compute() → file → tifffile + GDAL
     workdir = tempfile.mkdtemp(prefix="c05-")
     try:
@@ -1353,7 +1465,11 @@ def run(R: Run):
             dict(base_cfg, dst_state="existing-large", spill_sz=1, wpc=2, sched="threads4"),
             dict(base_cfg, dst_state="existing-small"),
             dict(base_cfg, dst_state="parts-dir", spill_sz=1, wpc=3),
+            dict(base_cfg, shape=[200, 170], dtype="float64", blocksize=[64], comp="zstd", spill_sz=1, wpc=3, recompute=True),
+            dict(base_cfg, shape=[64, 300], dtype="uint8"),   # one axis aligned, the other gains a tile by padding
+            dict(base_cfg, shape=[272, 16], dtype="uint8", bs_container="tuple"),
         ]
+        corpus += fam_e2e
         done = 0
         for i, cfg in enumerate(corpus):
             if uncompressed_single_tile_level(cfg):
